@@ -3,7 +3,7 @@
 The function's source is re-read from /repo on every run (ast.parse of the file, selected by qualified name) and executed
 symbolically path by path over z3 values.  Every path ends in an outcome  returns(v) | raises(E);  a contract
 (requires / ensures over the entry state, the outcome and the exit state) is then discharged per path with z3:
-                 requires /\ path-condition  =>  ensures
+                 requires and path-condition  =>  ensures
 Callees are replaced by their contracts/models (modular: a caller is checked against the callee's contract, not its body).
 
 Encoding (what of Python's semantics is assumed): int -> z3 Int (exact); float -> z3 Real (rounding ignored); bool -> z3
@@ -796,7 +796,7 @@ class Executor:
             return [(s, Opaque(o.label + "." + attr))]
         if isinstance(o, (tuple, list)) and attr in ("index", "append", "items", "values"):
             return [(s, ("method", o, attr))]
-        if is_seq(o) or isinstance(o, (tuple, list, str, int, float)):
+        if is_seq(o) or is_z3(o) or isinstance(o, (tuple, list, str, int, float)):
             return [(s, ("method", o, attr))]
         raise Unsupported("attribute %s of %r" % (attr, o))
 
@@ -999,6 +999,8 @@ class Executor:
         if isinstance(o, Opaque):
             self.havocs_used.append(o.label + "." + meth)
             return [(s, Opaque("call"))]
+        if meth == "item" and (is_z3(o) or isinstance(o, (int, float))):
+            return [(s, o)]             # numpy scalar -> python scalar
         if isinstance(o, (tuple, list)) and meth == "index":
             x = args[0]
             for k, y in enumerate(o):
